@@ -451,7 +451,7 @@ func genLemma(u *Universe, pi *PkgInfo, lm *Lemma) (res *VerifyResult) {
 			}
 		}
 		if v.K == KPtr {
-			vc.assume(And(iLe(IntLit(0), s), iLt(s, x.alloc(&st))))
+			x.assumeTypeInv(&st, v)
 		}
 		env.vars[p.Name] = v
 		paramSyms = append(paramSyms, s)
